@@ -297,6 +297,31 @@ def norm_test(node: ast.AST, env: Optional[Env] = None, negate: bool = False) ->
     operands are sorted."""
     if isinstance(node, ast.UnaryOp) and isinstance(node.op, ast.Not):
         return norm_test(node.operand, env, not negate)
+    if isinstance(node, ast.IfExp):
+        # a conditional expression used as a test: `X if A else Y` == (A and X) or (not A and Y),
+        # simplified for constant arms (`True if A else B` == A or B, ...)
+        a, x, y = node.test, node.body, node.orelse
+
+        def const(e: ast.AST):
+            return e.value if isinstance(e, ast.Constant) and isinstance(e.value, bool) else None
+        cx, cy = const(x), const(y)
+        na = ast.UnaryOp(op=ast.Not(), operand=a)
+        if cx is True and cy is False:
+            eq: ast.AST = a
+        elif cx is False and cy is True:
+            eq = na
+        elif cx is True:
+            eq = ast.BoolOp(op=ast.Or(), values=[a, y])
+        elif cx is False:
+            eq = ast.BoolOp(op=ast.And(), values=[na, y])
+        elif cy is True:
+            eq = ast.BoolOp(op=ast.Or(), values=[na, x])
+        elif cy is False:
+            eq = ast.BoolOp(op=ast.And(), values=[a, x])
+        else:
+            eq = ast.BoolOp(op=ast.Or(), values=[ast.BoolOp(op=ast.And(), values=[a, x]),
+                                                 ast.BoolOp(op=ast.And(), values=[na, y])])
+        return norm_test(eq, env, negate)
     if isinstance(node, ast.BoolOp):
         op_or = isinstance(node.op, ast.Or)
         if negate:
